@@ -1,5 +1,8 @@
 """Per-property configuration of the history engine (swarm weights, extra oracles)."""
 
+# localized and free time grids are part of every tier (their helper variables carry guesses of their own)
+COMMON = {"localize": True, "freegrid": True}
+
 BASE = {
     "C13": {
         "max_steps": 14,
@@ -10,21 +13,23 @@ BASE = {
         "max_steps": 12,
         "np_min": 1,
         "np_max": 4,
-        "weights": {"set_value": 8, "set_initial": 0.5, "subject_to": 0.5, "clear_constraints": 0.2, "add_objective": 0.3, "solver": 0.2,
-                    "set_T": 0.2, "set_t0": 0.1, "late_sym": 0.1, "reject": 0.2, "save": 1, "load": 1, "method": 2, "callback": 0, "catsave": 1},
+        "p_base_guess": 0.4,
+        "p_param_guess": 0.5,
+        "weights": {"set_value": 8, "set_initial": 1.0, "subject_to": 0.5, "clear_constraints": 0.2, "add_objective": 0.3, "solver": 0.2,
+                    "set_T": 0.2, "set_t0": 0.1, "late_sym": 0.1, "reject": 0.2, "save": 1, "load": 1, "method": 2, "catsave": 1},
         "p_real": 0.15,
     },
     "C10": {
         "max_steps": 12,
         "weights": {"set_initial": 9, "set_value": 0.5, "subject_to": 0.3, "clear_constraints": 0.1, "add_objective": 0.3, "solver": 0.2,
-                    "set_T": 0.3, "set_t0": 0.2, "late_sym": 0.1, "reject": 0.2, "save": 0.7, "load": 0.7, "method": 2, "callback": 0},
+                    "set_T": 0.3, "set_t0": 0.2, "late_sym": 0.1, "reject": 0.2, "save": 0.7, "load": 0.7, "method": 2},
         "p_base_guess": 0.5,
         "p_real": 0.1,
     },
     "C18": {
         "max_steps": 14,
-        # (a registered callback is a Python closure; pickling user functions is outside C18's feature list)
-        "weights": {"save": 5, "load": 5, "callback": 0, "set_value": 5, "catsave": 2},
+        # (the registered callback is a picklable module-level object, as a user who saves OCPs would write it)
+        "weights": {"save": 5, "load": 5, "callback": 0.6, "set_value": 5, "catsave": 2},
         "np_min": 2,
         "p_real": 0.15,
     },
@@ -39,7 +44,8 @@ def base_cfg(prop):
     """per-property base configuration; the thorough tier explores deeper bounds"""
     import os
 
-    cfg = dict(BASE[prop])
+    cfg = dict(COMMON)
+    cfg.update(BASE[prop])
     if os.environ.get("RSIM_TIER") == "thorough":
         for k, v in THOROUGH.items():
             if k in ("np_max",) and prop == "C09":
